@@ -203,8 +203,8 @@ MANIFESTS = [
 def e2e_cases(ctx, rng, count):
     out = []
     for i in range(count):
-        stream = ["bbb", "tears", "syn1", "syn2"][i % 4]
-        man, q = MANIFESTS[(i // 4) % len(MANIFESTS)]
+        stream = ["bbb", "tears", "syn1", "syn2", "syn3"][i % 5]
+        man, q = MANIFESTS[(i // 5) % len(MANIFESTS)]
         opts = [q] if q else []
         start = rng.choice(["epoch", "year", "month", "today", "explicit"])
         year = rng.choice([2021, 2023, 2024, 2031])
